@@ -224,7 +224,9 @@ impl LuaDeclarationTree {
                 false
             }
             LuaScopeKind::LocalOrAssignStat => {
-                for child in scope.get_children() {
+                // Closest declaration first: in `local a, a = 1, 2` later statements see the
+                // last `a`, like every other lookup that walks declarations in reverse order.
+                for child in scope.get_children().iter().rev() {
                     if let ScopeOrDeclId::Decl(decl_id) = child
                         && f(decl_id.into())
                     {
